@@ -1,6 +1,6 @@
 """C15 -- Metamath compressed proofs are decoded as Appendix B says.
 
-(1) every step number 1..10^6 (2*10^6 thorough): reference encoder (mc/mmref.py) -> MetamathConverter._import_proof
+(1) every step number 1..10^6 (2*10^6 thorough): reference encoder (mc/mmref.py) -> parse_database + MetamathConverter (one lemma per stream)
     -> same number; with and without interleaved whitespace;
 (2) every letter string of length <=4/5 over A-Y,Z that the reference accepts decodes to the same sequence;
 (3) every placement of Z in word sequences of length <=4/5;
@@ -41,24 +41,34 @@ def converter_for(text):
     return MetamathConverter(parse_database(text))
 
 
-def bare_converter():
+def decode_many(proofs):
+    """decode compressed proof texts through the public path (one database holding one lemma per proof text, parsed and
+    converted): -> list of step lists, or of exception strings"""
     from . import bridge  # noqa: F401
-    from proof_generation.metamath.ast import Database
     from proof_generation.metamath.converter.converter import MetamathConverter
-    return MetamathConverter(Database(()))
+    from proof_generation.metamath.parser import parse_database
 
-
-def import_proof(conv, proof_text, body_vars=()):
-    from proof_generation.metamath.ast import Application, Metavariable, ProvableStatement
-    terms = (Application('|-'), Application('t', tuple(Metavariable(v) for v in body_vars)) if body_vars else Application('t'))
-    return conv._import_proof(ProvableStatement('goal', terms, proof_text))
+    def run(batch):
+        text = '$c #Pattern |- t $.\n' + ''.join(f'lem{i} $p |- t $= {pr} $.\n' for i, pr in enumerate(batch))
+        conv = MetamathConverter(parse_database(text))
+        return [list(conv.get_lemma_by_name(f'lem{i}').proof.applied_lemmas) for i in range(len(batch))]
+    try:
+        return run(proofs)
+    except Exception:  # noqa: BLE001
+        out = []
+        for pr in proofs:
+            try:
+                out.append(run([pr])[0])
+            except Exception as ex:  # noqa: BLE001
+                out.append(f'{type(ex).__name__}: {str(ex)[:100]}')
+        return out
 
 
 def numbers_chunk(rng):
     lo, hi = rng
-    conv = bare_converter()
     out = {'evals': 0, 'viol': []}
     B = 1000
+    batches = []
     for start in range(lo, hi, B):
         nums = list(range(start, min(hi, start + B)))
         words = [mmref.encode_number(n) for n in nums]
@@ -68,16 +78,16 @@ def numbers_chunk(rng):
                 raise AssertionError('reference codec broken')
         for layout in ('plain', 'spaced'):
             letters = ''.join(words) if layout == 'plain' else '\n  '.join(''.join(words[i:i + 7]) for i in range(0, len(words), 7))
-            try:
-                got = import_proof(conv, '( ) ' + letters).applied_lemmas
-            except Exception as ex:  # noqa: BLE001
-                out['viol'].append(({'part': 'numbers', 'first': nums[0]}, f'decoding the encodings of {nums[0]}..{nums[-1]} raised {type(ex).__name__}: {ex}'))
-                continue
-            out['evals'] += len(nums)
-            if got != nums:
-                k = next(i for i, (a, b) in enumerate(zip(got + [None] * len(nums), nums)) if a != b)
-                out['viol'].append(({'part': 'numbers', 'number': nums[k]},
-                                    f'step number {nums[k]} (encoded {words[k]}) decodes to {got[k] if k < len(got) else None}'))
+            batches.append((nums, words, '( ) ' + letters))
+    for (nums, words, _), got in zip(batches, decode_many([b[2] for b in batches])):
+        if isinstance(got, str):
+            out['viol'].append(({'part': 'numbers', 'first': nums[0]}, f'decoding the encodings of {nums[0]}..{nums[-1]} raised {got}'))
+            continue
+        out['evals'] += len(nums)
+        if got != nums:
+            k = next(i for i, (a, b) in enumerate(zip(got + [None] * len(nums), nums)) if a != b)
+            out['viol'].append(({'part': 'numbers', 'number': nums[k]},
+                                f'step number {nums[k]} (encoded {words[k]}) decodes to {got[k] if k < len(got) else None}'))
     return out
 
 
@@ -86,10 +96,10 @@ LETTERS = mmref.LS + mmref.MS + 'Z'
 
 def strings_chunk(args):
     prefixes, n = args
-    conv = bare_converter()
     out = {'evals': 0, 'valid': 0, 'with_Z': 0, 'viol': []}
     # a reduced alphabet keeps the space exhaustive: two low digits, two high digits, Z
     alpha = 'ATUYZ' if n > 3 else LETTERS
+    todo = []
     for pre in prefixes:
         for rest in itertools.product(alpha, repeat=n - len(pre)):
             s = pre + ''.join(rest)
@@ -100,13 +110,13 @@ def strings_chunk(args):
             out['valid'] += 1
             if 'Z' in ref:
                 out['with_Z'] += 1
-            want = [0 if w == 'Z' else w for w in ref]
-            try:
-                got = import_proof(conv, '( ) ' + s).applied_lemmas
-            except Exception as ex:  # noqa: BLE001
-                out['viol'].append(({'part': 'strings', 'letters': s}, f'valid compressed proof {s!r} raised {type(ex).__name__}: {ex}'))
-                continue
-            if got != want:
+            todo.append((s, [0 if w == 'Z' else w for w in ref]))
+    for k in range(0, len(todo), 2000):
+        part = todo[k:k + 2000]
+        for (s, want), got in zip(part, decode_many(['( ) ' + s for s, _ in part])):
+            if isinstance(got, str):
+                out['viol'].append(({'part': 'strings', 'letters': s}, f'valid compressed proof {s!r} raised {got}'))
+            elif got != want:
                 out['viol'].append(({'part': 'strings', 'letters': s}, f'{s!r} decodes to {got}, Appendix B says {want} (0 = Z)'))
     return out
 
@@ -239,8 +249,7 @@ def replay(path: str) -> int:
             print('still failing:', w)
         return 1 if out['viol'] else 0
     if sig.get('part') == 'strings':
-        conv = bare_converter()
-        got = import_proof(conv, '( ) ' + sig['letters']).applied_lemmas
+        got = decode_many(['( ) ' + sig['letters']])[0]
         print('decoded:', got, 'reference:', mmref.split_words(sig['letters']))
         return 1
     if sig.get('part') == 'hashseed':
